@@ -166,7 +166,8 @@ def _read_shapes(peek=False):
     kinds = [('int',)] + [('dtype', n, 'len') for n in ('uint', 'int', 'uintbe', 'intbe', 'uintle', 'intle', 'hex', 'oct',
                                                        'bin', 'bits', 'bytes', 'pad')] \
         + [('dtype', 'bool', None)] \
-        + [('str', 'uint:12'), ('str', 'hex'), ('str', 'bin'), ('str', 'bytes'), ('str', 'bits'), ('str', 'oct')]
+        + [('str', 'uint:12'), ('str', 'hex'), ('str', 'bin'), ('str', 'bytes'), ('str', 'bits'), ('str', 'oct'),
+           ('str', 'ue'), ('str', 'se')]
     for cls, st in STREAM_STATES:
         for k in kinds:
             def build(S, interp, cls=cls, st=st, k=k):
@@ -215,6 +216,19 @@ def _read_core(C, self, fmt, advance=True):
         L = int(ln) if ln else None
     else:
         name, L = fmt.attrs['_name'], fmt.attrs['_length']
+    if name in ('ue', 'se'):
+        # self-delimiting codes: value and length come from the codeword at pos; a truncated codeword is a ReadError
+        from .golomb import readue_core
+        if C.lsb0:
+            C.throw('ReadError')
+        c, used = readue_core(C, sub(V, p, V.n), 0)      # the codeword is read from the tail bits[pos:]
+        newp = p + used
+        if name == 'se':
+            m = (c + 1) // 2
+            c = m if sym.truth(sym.eq(c % 2, 1)) else -m
+        if advance:
+            self.attrs['_pos'] = newp
+        return c
     unit = FIXED[name][0] if name in FIXED else 1
     if L is None:
         if name == 'bool':
